@@ -208,7 +208,9 @@ CLAIMED = {
     "C08": dict(
         technique="TLA+ model of written Twp/Rge forms (template class, numbers, present/absent directions), defaults and "
                   "their source, enumerated by TLC; each form rendered and parsed; TLC trace validation of the preprocessed "
-                  "text, find_twprge, tracts and warnings against Meaning(form, defaults)",
+                  "text, find_twprge, tracts and warnings against Meaning(form, defaults); TLA+ model of the six "
+                  "preprocessing passes over descriptions with several Twp/Rges (spec/Preprocess.tla), its behaviours "
+                  "replayed and the preprocessed text validated atom by atom",
         text="TLC enumerates every readable written form x default directions x source (config text, parse keyword, "
              "MasterConfig, unset) x ocr_scrub and checks that an explicit direction is kept, a missing one is the default, and "
              "the result equals that of the fully written form; each case (and pairs of Twp/Rges in one description, 40% of "
@@ -216,8 +218,12 @@ CLAIMED = {
              "ocr_scrub is on, and parsed; TLC checks that the Twp/Rges read off the preprocessed text, find_twprge(..., "
              "preprocess=True) and the tracts all equal the expected meaning in reading order, the preprocessed text holds no "
              "Twp/Rge in another spelling, every form with a missing direction is named by a fixed_twprge warning on the "
-             "description and its tracts, and the tracts equal those of the fully written text.",
-        note="Trusted: spelling templates in harness/drivers/c08.py. Documented exceptions excluded: range 2 without the R "
+             "description and its tracts, and the tracts equal those of the fully written text. spec/Preprocess.tla runs the six "
+             "scrubbing patterns and the whitespace reduction pass by pass over atom sequences (1-3 Twp/Rge occurrences x "
+             "trailing punctuation x Principal Meridian wording x defaults), TLC checks AllCanonical / NoResidue / FixedPoint "
+             "and that the pinned tree's replace-all behaviour (finding F14) breaks them; every emitted description is parsed, "
+             "pp_desc is lexed back into atoms and compared with the model (drift) and with the C08 clauses (verdict).",
+        note="Trusted: spelling templates in harness/drivers/c08.py and the 40-line lexer impl.pp_lex. Documented exceptions excluded: range 2 without the R "
              "word; OCR needs the T word, both directions and a range other than a lone 2; a missing direction needs the T "
              "and R words.",
         design_ref="§5.5, §6 C08"),
